@@ -262,6 +262,9 @@ func hostileHref(r *RNG, n int, u *nurl.URL) string {
 	case 19:
 		return fmt.Sprintf("../alpha/page/%d#c", n)
 	case 20:
+		if n%3 == 0 {
+			return fmt.Sprintf("javascript://%s/story/alpha/page/%d", host, n)
+		}
 		return fmt.Sprintf("javascript:void(0);//page=%d", n)
 	case 21:
 		return fmt.Sprintf("file:///story/alpha/page/%d", n)
@@ -328,7 +331,10 @@ func famHostile(fam, n int, u *nurl.URL) string {
 	case 17:
 		return fmt.Sprintf("%s://%s:8443/story/alpha/page/%d", u.Scheme, u.Hostname(), n)
 	case 18:
-		return fmt.Sprintf("javascript:goto('/story/alpha/page/%d')", n)
+		if n%2 == 0 {
+			return fmt.Sprintf("javascript://%s/story/alpha/page/%d", host, n) // parses like a hierarchical URL
+		}
+		return fmt.Sprintf("javascript://%s/story/alpha/page/%d", host, n)
 	case 19:
 		return fmt.Sprintf("//%s/story/alpha/page/%d", strings.ToUpper(host), n)
 	case 20:
@@ -372,6 +378,16 @@ func genPager(r *RNG, hostile bool) *Pager {
 			}
 		}
 	}
+	foldHost := ""
+	if hostile && r.Intn(12) == 0 {
+		// page hosts with runes whose lower-case form has another byte length; the links use the ASCII spelling
+		h := [][2]string{{"\u212a\u212a.example", "kk.example"}, {"\u0130stanbul.example", "istanbul.example"}, {"\u017fite.example", "site.example"}, {"\u212aiosk.example", "kiosk.example"}}[r.Intn(4)]
+		pu = "http://" + h[0] + "/story/alpha/page/2"
+		if pp, err := nurl.Parse(pu); err == nil {
+			u = pp
+			foldHost = h[1]
+		}
+	}
 	var sb strings.Builder
 	sb.WriteString(`<html><head><title>T</title></head><body><p>` + fillerWords(r, 40+r.Intn(60)) + `</p>`)
 	ngroups := 1
@@ -395,8 +411,15 @@ func genPager(r *RNG, hostile bool) *Pager {
 		N := 2 + r.Intn(9)
 		k := 1 + r.Intn(N)
 		fam := r.Intn(9)
+		fam2 := -1
 		if hostile {
 			fam = r.Intn(nHostileFams)
+			if r.Intn(2) == 0 {
+				fam = r.Intn(9) // the classic families, several of them with more than one numeric component
+			}
+			if r.Intn(8) == 0 {
+				fam2 = r.Intn(9) // two families interleaved in one pager: equally good URL patterns
+			}
 			if gi == 0 && r.Intn(4) != 0 {
 				fam = fam0
 				if r.Intn(2) == 0 && k0 <= N {
@@ -410,7 +433,7 @@ func genPager(r *RNG, hostile bool) *Pager {
 			nums = append(nums, i)
 		}
 		if hostile {
-			switch r.Intn(8) {
+			switch r.Intn(6) {
 			case 0: // gap: 1 ... 4 5 6
 				if N > 4 {
 					nums = append([]int{1}, nums[3:]...)
@@ -450,8 +473,13 @@ func genPager(r *RNG, hostile bool) *Pager {
 			var h string
 			if hostile && r.Intn(3) == 0 {
 				h = hostileHref(r, i, u)
+			} else if fam2 >= 0 && i%2 == 0 {
+				h = famHostile(fam2, i, u)
 			} else {
 				h = famHostile(fam, i, u)
+			}
+			if foldHost != "" && r.Intn(2) == 0 {
+				h = fmt.Sprintf("http://%s/%d", foldHost, i) // shorter than the page's own origin prefix
 			}
 			if i == 1 && firstElsewhere {
 				h = "/index/start.html"
@@ -483,4 +511,77 @@ func genPager(r *RNG, hostile bool) *Pager {
 	}
 	sb.WriteString(`<p><a href="/archive/older">older posts</a> <a href="/archive/newer">newer</a></p></body></html>`)
 	return &Pager{HTML: sb.String(), PageURL: pu, Desc: "hostile"}
+}
+
+// genTiePager builds pagers of the two shapes in which the page-number
+// detector has several equally plausible readings (used by C11): (A) a gapped
+// run "1 .. k-1 k k+1" over a URL family with more than one numeric component,
+// so that a lone link stands for a pattern of its own; (B) two URL families
+// interleaved in one run of links.
+func genTiePager(r *RNG) *Pager {
+	var sb strings.Builder
+	sb.WriteString(`<html><head><title>T</title></head><body><p>` + fillerWords(r, 50+r.Intn(40)) + `</p><div class="pg">`)
+	pu := ""
+	if r.Intn(2) == 0 {
+		// shape A
+		k := 3 + r.Intn(6)
+		id := 10 + r.Intn(90)
+		fam := r.Intn(4)
+		link := func(n int) string {
+			switch fam {
+			case 0:
+				return fmt.Sprintf("/a?id=%d&page=%d", id, n)
+			case 1:
+				return fmt.Sprintf("/a/%d/page/%d", id, n)
+			case 2:
+				return fmt.Sprintf("/story-%d/alpha?p=%d&s=%d", id, n, id)
+			default:
+				return fmt.Sprintf("/%d/%d/alpha/%d", 2000+id%20, 1+id%12, n)
+			}
+		}
+		pu = "http://example.com" + link(k)
+		nums := []int{1}
+		if r.Intn(2) == 0 {
+			nums = append(nums, 2)
+		}
+		nums = append(nums, k-1, k, k+1)
+		if r.Intn(2) == 0 {
+			nums = append(nums, k+2)
+		}
+		seen := map[int]bool{}
+		for _, n := range nums {
+			if seen[n] || n < 1 {
+				continue
+			}
+			seen[n] = true
+			if n == k {
+				fmt.Fprintf(&sb, "%d ", n)
+			} else {
+				fmt.Fprintf(&sb, `<a href="%s">%d</a> `, link(n), n)
+			}
+		}
+	} else {
+		// shape B
+		pu = []string{"http://example.com/", "http://example.com/story/alpha/", "http://example.com/story"}[r.Intn(3)]
+		famA, famB := r.Intn(9), r.Intn(9)
+		u := mustURL(pu)
+		n := 4 + r.Intn(5)
+		k := 0
+		if r.Intn(2) == 0 {
+			k = 1 + r.Intn(n)
+		}
+		for i := 1; i <= n; i++ {
+			if i == k {
+				fmt.Fprintf(&sb, "%d ", i)
+				continue
+			}
+			f := famA
+			if i%2 == 0 {
+				f = famB
+			}
+			fmt.Fprintf(&sb, `<a href="%s">%d</a> `, famHostile(f, i, u), i)
+		}
+	}
+	sb.WriteString(`</div></body></html>`)
+	return &Pager{HTML: sb.String(), PageURL: pu, Desc: "tie"}
 }
